@@ -154,7 +154,7 @@ def run_enum_incremental(case):
     exp = {n: Q(0) for n in names}
     leaves = 0
     try:
-        for p, contrib, _path in rng.enumerate_runs(one, max_leaves=case.get('max_leaves', 8000), early=True):
+        for p, contrib, _path in rng.enumerate_runs(one, max_leaves=case.get('max_leaves', MAX_LEAVES['n']), early=True):
             leaves += 1
             for n in names:
                 exp[n] = exp[n] + p * contrib[n]
@@ -239,7 +239,7 @@ def run_enum_batch(case):
     exp = {n: Q(0) for n in names}
     leaves = 0
     try:
-        for p, vals, _path in rng.enumerate_runs(one, max_leaves=case.get('max_leaves', 8000), early=True):
+        for p, vals, _path in rng.enumerate_runs(one, max_leaves=case.get('max_leaves', MAX_LEAVES['n']), early=True):
             leaves += 1
             for n in names:
                 exp[n] = exp[n] + p * vals[n]
@@ -521,6 +521,11 @@ def replay(sub, case):
     return Result(bool(ok), key='C04:mean-of-samples', detail=detail)
 
 
+# every leaf of an enumeration deep-copies a warm explainer (~10-20 ms): the cap bounds one case to ~30 s (quick) / ~2 min (thorough);
+# larger trees are recognised after their first leaf and skipped (label not_enumerable)
+MAX_LEAVES = {'n': 1500}
+
+
 def self_check():
     ref.self_check()
     rng.self_check()
@@ -528,6 +533,7 @@ def self_check():
 
 def run(ctx):
     ctx.rule, ctx.assumptions = RULE, ASSUMPTIONS
+    MAX_LEAVES['n'] = 6000 if ctx.thorough() else 1500
     leaves = {'n': 0}
 
     def wrap(fn):
